@@ -179,7 +179,13 @@ func (k Keeper) GetCertifiedIdentities(ctx sdk.Context) []sdk.AccAddress {
 	identities := []sdk.AccAddress{}
 	k.IterateAllCertificate(ctx, func(certificate types.Certificate) (stop bool) {
 		if types.TranslateCertificateType(certificate) == types.CertificateTypeIdentity {
-			addr, _ := sdk.AccAddressFromBech32(certificate.GetContentString())
+			// The content of an identity certificate is free text. One that is not an address certifies nobody;
+			// returning the empty address for it made callers that walk an identity's delegations
+			// (the quorum base of shield claims) walk every delegation in the store.
+			addr, err := sdk.AccAddressFromBech32(certificate.GetContentString())
+			if err != nil {
+				return false
+			}
 			identities = append(identities, addr)
 		}
 		return false
